@@ -81,11 +81,12 @@ void read_crs(
     precondition(f, "Failed to open matrix file");
 
     precondition(read(f, n), "File I/O error");
+    precondition(static_cast<ptrdiff_t>(n) >= 0, "Corrupted matrix file (negative size)");
 
     if (row_beg < 0) row_beg = 0;
     if (row_end < 0) row_end = n;
 
-    precondition(row_beg >= 0 && row_end <= static_cast<ptrdiff_t>(n),
+    precondition(row_beg >= 0 && row_beg <= row_end && row_end <= static_cast<ptrdiff_t>(n),
             "Wrong subset of rows is requested");
 
     ptrdiff_t chunk = row_end - row_beg;
@@ -99,6 +100,13 @@ void read_crs(
     Ptr nnz;
     f.seekg(ptr_beg + n * sizeof(Ptr));
     precondition(read(f, nnz), "File I/O error");
+
+    // Row pointers read from the file should be consistent.
+    precondition(ptr.front() >= 0 && ptr.back() <= nnz,
+            "Corrupted matrix file (row pointers out of range)");
+    for(ptrdiff_t i = 0; i < chunk; ++i)
+        precondition(ptr[i] <= ptr[i+1],
+                "Corrupted matrix file (row pointers are not monotone)");
 
     SizeT nnz_beg = ptr.front();
     if (nnz_beg) for(auto &p : ptr) p -= nnz_beg;
@@ -140,11 +148,13 @@ void read_dense(const std::string &fname,
 
     precondition(read(f, n), "File I/O error");
     precondition(read(f, m), "File I/O error");
+    precondition(static_cast<ptrdiff_t>(n) >= 0 && static_cast<ptrdiff_t>(m) >= 0,
+            "Corrupted matrix file (negative size)");
 
     if (row_beg < 0) row_beg = 0;
     if (row_end < 0) row_end = n;
 
-    precondition(row_beg >= 0 && row_end <= static_cast<ptrdiff_t>(n),
+    precondition(row_beg >= 0 && row_beg <= row_end && row_end <= static_cast<ptrdiff_t>(n),
             "Wrong subset of rows is requested");
 
     ptrdiff_t chunk = row_end - row_beg;
